@@ -5,8 +5,12 @@ FULL STATEMENT (the property; evaluated on every generated case by the harness t
 one theorem for the pairs osu → Quaver, Quaver → osu, O2Jam → osu, O2Jam → Quaver: `osu_to_qua_end_to_end`,
 `qua_to_osu_end_to_end`, `o2j_to_osu_end_to_end`, `o2j_to_qua_end_to_end`; osu → StepMania for the objects in the exact
 regime: `osu_to_sm_objects_partial`; every source into osu / Quaver from the reader's output on:
-`from_abstract_to_osu_partial`, `from_abstract_to_qua_partial`; for the remaining pairs NOT
-proved as one theorem):  for every source file `t` of format A inside the domain of A's reader property, every legal
+`from_abstract_to_osu_partial`, `from_abstract_to_qua_partial`; osu / Quaver / any source → StepMania about the text
+`SMMapSet.write` returns, tempo timeline and `#OFFSET` included, in the exact regime: `osu_to_sm_end_to_end_partial`,
+`qua_to_sm_end_to_end_partial`, `from_abstract_to_sm_partial`; StepMania → osu / Quaver from one `#NOTES` value and the
+parsed header values: `sm_to_osu_end_to_end_partial`, `sm_to_qua_end_to_end_partial`; BMS → osu / Quaver, objects, from the
+file's lines: `bms_to_osu_objects_partial`, `bms_to_qua_objects_partial`; what each `_partial` lacks is spelled out at the
+theorem; into BMS and the off-grid regime into StepMania are NOT proved as one theorem):  for every source file `t` of format A inside the domain of A's reader property, every legal
 target B and key count B supports,
     `CloseTo eps (res B) (gridExact a) shift a (abs_B (denote_B (write_B (convert_AB (read_A t)))))`   with `a = abs_A (denote_A t)`,
 `res osu = res qua = ms`, `res sm = beat (1/96) (1/192)`, `res bms = beat (1/192) (1/192)`.
